@@ -652,6 +652,15 @@ func (x *fx) ptrField() {
 			}
 			// getter
 			x.checkGetter(o, wv, v, isNull, "after Set"+g+"("+v.name+")")
+			if k == sgen.Text {
+				// what the setter stored is what the getter returns, also for
+				// the empty string on a field with a non-empty default
+				if out, pan, err := sgen.Call(wv, g); err == nil && pan == nil && len(out) == 2 {
+					if e, _ := out[1].Interface().(error); e == nil && out[0].Kind() == reflect.String && out[0].String() != v.text {
+						x.failf("set-get-"+x.kind+"/roundtrip", "after Set%s(%q) the getter returns %q (default %q, slot null=%v)", g, v.text, out[0].String(), f.Def.Text, isNull)
+					}
+				}
+			}
 			x.r.Outcome("ptr-set/" + x.c.ctx)
 		}
 		// --- getter on a slot written by the library (not by generated code)
